@@ -19,7 +19,7 @@ Mirrors (tree at /repo HEAD):
      marshal                               99-127    `marshalList`, `marshal`
      unmarshal                             130-135   `unmarshal`
      Hydration._hydrate_one / hydrate      154-188   `loadOne`, `hydrate`
-     Hydration.dehydrate                   190-229   `dehydrate`
+     Hydration.dehydrate                   190-229   `dehydrate`; the persister over a run: `persist`
   insights/core/dr.py
      Broker.__setitem__ (raises when the key exists)  `Broker.set`
      run (pruning under SerializedArchiveContext) 1121-1129  `prune`
@@ -279,6 +279,17 @@ def deserialize (root : Str) (fs : FS) (d : ResDoc) : Option Loaded :=
 def loadedContent (fs : FS) (l : Loaded) : Option (List Str) :=
   (fs.read l.path).map (fun t => if l.raw then [t] else read t)
 
+/-- `pat in line` -/
+def containsStr (pat : Str) : Str → Bool
+  | [] => pat.isEmpty
+  | c :: t => pat.isPrefixOf (c :: t) || containsStr pat t
+
+/-- TextFileProvider.load, 301-303: when the loading context is not a HostContext and the spec has
+    filters, the lines are filtered again (AllowFilter.filter_content: a line stays when it contains
+    one of the patterns; the per-pattern line budget `max_match` is not modelled) -/
+def postFilter (pats : List Str) (ls : List Str) : List Str :=
+  if pats.isEmpty then ls else ls.filter (fun l => pats.any (fun p => containsStr p l))
+
 /-! ## marshal / dehydrate -/
 
 /-- `broker.get(comp)` of a spec: one provider or (multi_output) a list -/
@@ -355,6 +366,19 @@ def dehydrate (host : Bool) (root : Str) (st : Store) (name : Str) (recorded : L
   let doc := docFor host root st.fs name recorded v
   if doc.results.isSome || !doc.errors.isEmpty then { fs := r.2.2, entries := metaPut st.entries name (.json doc) }
   else { st with fs := r.2.2 }
+
+/-- one persisted component of a collection run: its name, the tracebacks recorded against it
+    before the persister looks at it, and its value in the broker -/
+structure Item where
+  name : Str
+  recorded : List Fault
+  value : Option Value
+
+/-- a whole collection: the persister observer fires once per component, in evaluation order (over
+    all sub-graphs of `dr.run_all`, which share one broker and one Hydration) — a fold of `dehydrate`
+    over the archive (file-system map + meta_data entries) -/
+def persist (host : Bool) (root : Str) (st : Store) (items : List Item) : Store :=
+  items.foldl (fun st it => dehydrate host root st it.name it.recorded it.value) st
 
 /-! ## unmarshal / hydrate -/
 
